@@ -79,6 +79,25 @@ func verifStubDoMultiStatus(c *Client, req *http.Request) (*MultiStatus, error) 
 		if VerifServed == nil {
 			return nil, io.ErrUnexpectedEOF
 		}
+		// status lines cross the wire as text: through the real
+		// Status.MarshalText / UnmarshalText
+		for i := range VerifServed.Responses {
+			r := &VerifServed.Responses[i]
+			if r.Status != nil {
+				st, err := verifStatusOverWire(r.Status)
+				if err != nil {
+					return nil, err
+				}
+				r.Status = st
+			}
+			for k := range r.PropStats {
+				st, err := verifStatusOverWire(&r.PropStats[k].Status)
+				if err != nil {
+					return nil, err
+				}
+				r.PropStats[k].Status = *st
+			}
+		}
 		return VerifServed, nil
 	}
 	return &MultiStatus{}, nil
@@ -160,8 +179,15 @@ func verifStubRawDecode(val *RawXMLValue, v interface{}) error {
 		}
 		if dst, ok := v.(*GetLastModified); ok {
 			if src, ok := val.out.(*GetLastModified); ok {
-				*dst = *src
-				return nil
+				// the date crosses the wire as text: through the real
+				// MarshalText / UnmarshalText (time.Format / Parse are
+				// uninterpreted, with parse(format(t in UTC)) = t)
+				text, err := src.LastModified.MarshalText()
+				if err != nil {
+					return err
+				}
+				*dst = GetLastModified{XMLName: src.XMLName}
+				return dst.LastModified.UnmarshalText(text)
 			}
 		}
 		if dst, ok := v.(*GetETag); ok {
@@ -396,4 +422,16 @@ func VerifMarshal(v interface{}) ([]byte, error) {
 		return nil, err
 	}
 	return append([]byte(xml.Header), b...), nil
+}
+
+func verifStatusOverWire(s *Status) (*Status, error) {
+	text, err := s.MarshalText()
+	if err != nil {
+		return nil, err
+	}
+	var out Status
+	if err := out.UnmarshalText(text); err != nil {
+		return nil, err
+	}
+	return &out, nil
 }
